@@ -438,6 +438,12 @@ def edge_cases(rng, tier):
     for p in TOPSORT_PRELUDES:
         add('generic parameter shadowing a type: ' + p.replace('\n', ' ').replace('#[typeshare] ', ''), p)
     add('self-referential types', TS + 'struct S { a: Option<Box<S>>, b: Vec<S> }\n' + TS + 'type A = Vec<A>;\n' + TS + '#[serde(tag = "t", content = "c")]\nenum E { A(Box<E>), B(Vec<E>) }\n')
+    # alias cycles (syn accepts them, rustc would not): a walk that follows alias targets without a cycle guard spins (seeded C07_d)
+    add('alias to itself', TS + 'type A = A;\n')
+    add('alias cycle of two', TS + 'type Ping = Pong;\n' + TS + 'type Pong = Ping;\n' + TS + 'struct S { p: Ping }\n')
+    add('alias cycle of three through containers', TS + 'type A = Vec<B>;\n' + TS + 'type B = Option<C>;\n' + TS + 'type C = A;\n' + TS + 'struct S { a: A, c: C }\n')
+    add('alias chain ending in a struct, and one ending in a cycle', TS + 'struct S { a: u8 }\n' + TS + 'type A1 = S;\n' + TS + 'type A2 = A1;\n' + TS + 'type A3 = A2;\n'
+        + TS + 'type L1 = L2;\n' + TS + 'type L2 = L1;\n' + TS + 'struct U { a: A3, l: L1 }\n')
     add('mutually recursive types', TS + 'struct A { b: Option<Box<B>> }\n' + TS + 'struct B { a: Vec<A> }\n')
     add('duplicate definitions', TS + 'struct S { a: u8 }\n' + TS + 'struct S { b: u8 }\n' + TS + 'type S = u8;\n' + TS + 'enum S { A }\n')
     add('type named like a primitive', TS + 'struct String { a: u8 }\n' + TS + 'struct Vec { a: Option }\n' + TS + 'type Option = u8;\n')
